@@ -9,7 +9,8 @@
    signs, suffix, refusals) is proved for all sizes. *)
 From Coq Require Import Sorted QArith.
 From CKT Require Import Common.Base Common.Circ Model.Observables Model.Grouping Model.Measurement
-                        Proofs.GroupingP Proofs.MeasurementP.
+                        Proofs.GroupingP Proofs.MeasurementP
+                        Model.GroupingGreedy Proofs.GroupingGreedyP Proofs.BornTwoQubitP.
 Close Scope Q_scope.
 
 (* ---------------------------------------------------------------------------------------------
@@ -46,6 +47,23 @@ Theorem c11_total : forall obs o,
   obs <> [] -> (forall p, In p obs -> pphase p = 0) -> grouping_contract obs o = true ->
   exists cogs lk, collection obs o = Ok (cogs, lk).
 Proof. exact collection_total. Qed.
+
+(* The oracle contract is inhabited for EVERY input of equal width: duplicate removal + first-fit greedy grouping
+   (Model/GroupingGreedy.v, a reference implementation, not Qiskit's graph colouring) satisfies it ... *)
+Theorem c11_contract_inhabited : forall obs,
+  same_width (match obs with [] => 0 | p :: _ => length (plets p) end) obs = true ->
+  grouping_contract obs (greedy_oracle obs) = true.
+Proof. exact greedy_contract. Qed.
+
+(* ... so with the reference oracle the collection of any non-empty, phase-free, equally wide list is built and covers
+   every observable, each listed location holding exactly it: no oracle hypothesis left *)
+Theorem c11_collection_reference_oracle : forall obs,
+  obs <> [] -> (forall p, In p obs -> pphase p = 0) ->
+  same_width (match obs with [] => 0 | p :: _ => length (plets p) end) obs = true ->
+  exists cogs lk, collection obs (greedy_oracle obs) = Ok (cogs, lk) /\
+    forall p, In p obs -> exists locs, lookup_find p lk = Some locs /\ locs <> [] /\
+      forall i j, In (i, j) locs -> exists c, nth_error cogs i = Some c /\ nth_error (cg_members c) j = Some p.
+Proof. exact greedy_collection. Qed.
 
 (* every member letter is I or equals the general observable's letter; all widths agree *)
 Theorem c11_compatible : forall group nq g,
@@ -287,6 +305,27 @@ Section ExpectationCircuit.
   Qed.
 End ExpectationCircuit.
 
+(* The hypothesis DISCHARGED on two qubits (bound in the statement): for EVERY non-zero two-qubit state vector with
+   Gaussian-integer amplitudes (by scaling: Gaussian-rational amplitudes) and EVERY general observable on two qubits
+   (all 16 letter combinations, incl. identity letters and the dummy), the outcome law computed from the state vector
+   after the appended rotations (H for X, SX for Y) satisfies `born` with ev = <psi|.|psi>/<psi|psi>.
+   Symbolic in the 8 integer coordinates of the state (polynomial identities), not an evaluation on samples. *)
+Theorem c11_born_two_qubits : forall (s : st2) (g : list nat),
+  st2_nonzero s -> length g = 2 -> valid_letters g -> born (ev_st2 s) g (law_st2 s g).
+Proof. exact born_two_qubits. Qed.
+
+(* hence on two qubits the decoded value IS the expectation value of every member: no physical hypothesis left *)
+Theorem c11_expectation_two_qubits : forall (s : st2) (g : list nat),
+  st2_nonzero s -> length g = 2 -> valid_letters g ->
+  forall m mask, member_of g m -> mask_of m (nonid_positions g) = Some mask ->
+    Qeq (expect (law_st2 s g) (decode mask)) (ev_st2 s m).
+Proof. exact expectation_two_qubits. Qed.
+
+(* the law used there is normalised *)
+Theorem c11_law_two_qubits_normalised : forall (s : st2) (g : list nat),
+  st2_nonzero s -> length g = 2 -> valid_letters g -> Qeq (expect (law_st2 s g) (fun _ => 1%Z)) 1%Q.
+Proof. exact law_st2_total. Qed.
+
 (* the forced dummy measurement: an all-identity group measures qubit 0 into a 1-bit register,
    all masks are 0 and every outcome decodes to +1 *)
 Theorem c11_dummy : forall g members idx masks,
@@ -328,6 +367,19 @@ Example c11_ex_collection :
 Proof. reflexivity. Qed.
 
 Example c11_ex_incompatible : most_general_observable [mkP 0 [1; 0]; mkP 0 [3; 2]] None = Refused.
+Proof. reflexivity. Qed.
+
+(* the reference oracle on the example list: duplicates removed, first-fit classes; the contract holds and the
+   collection is the one above up to the order inside the oracle's answer *)
+Example c11_ex_greedy :
+  greedy_oracle ex_obs =
+  mkOracle [mkP 0 [0; 3; 0]; mkP 0 [1; 3; 2]; mkP 0 [3; 0; 0]; mkP 0 [0; 0; 0]; mkP 0 [1; 0; 0]]
+           [[mkP 0 [0; 3; 0]; mkP 0 [1; 3; 2]; mkP 0 [0; 0; 0]; mkP 0 [1; 0; 0]]; [mkP 0 [3; 0; 0]]] /\
+  grouping_contract ex_obs (greedy_oracle ex_obs) = true /\
+  is_ok (collection ex_obs (greedy_oracle ex_obs)) = true.
+Proof. repeat split; reflexivity. Qed.
+
+Example c11_ex_state_nonzero : st2_nonzero psi_ex.
 Proof. reflexivity. Qed.
 
 (* suffix for general XZY with qubit_locations [2; 0; 1] into register bits [4; 5; 6] (h = gate 7, sx = gate 9) *)
@@ -401,6 +453,11 @@ Print Assumptions c11_measure_ok.
 Print Assumptions c11_meas_refuses.
 Print Assumptions c11_expectation.
 Print Assumptions c11_expectation_circuit.
+Print Assumptions c11_contract_inhabited.
+Print Assumptions c11_collection_reference_oracle.
+Print Assumptions c11_born_two_qubits.
+Print Assumptions c11_expectation_two_qubits.
+Print Assumptions c11_law_two_qubits_normalised.
 Print Assumptions c11_suffix_semantics.
 Print Assumptions c11_process_outcome.
 Print Assumptions c11_dummy.
